@@ -2,68 +2,7 @@
 
 package tacquito
 
-// Shared harness helpers (pure; the engine merges their paths into one term).
-
-func vpImp(a, b bool) bool {
-	if a {
-		return b
-	}
-	return true
-}
-
-func vpAnd(a, b bool) bool {
-	if a {
-		return b
-	}
-	return false
-}
-
-func vpOr(a, b bool) bool {
-	if a {
-		return true
-	}
-	return b
-}
-
-func vpAt(b []byte, i int) byte {
-	if i >= 0 && i < len(b) {
-		return b[i]
-	}
-	return 0
-}
-
-func vpAtS(s string, i int) byte {
-	if i >= 0 && i < len(s) {
-		return s[i]
-	}
-	return 0
-}
-
-func vpIsASCII(s string) bool {
-	for i := 0; i < len(s); i++ {
-		if s[i] > 127 {
-			return false
-		}
-	}
-	return true
-}
-
-// vpSameAt asserts out[off:off+len(f)] == f using one fresh symbolic index (covers all positions).
-func vpSameAt(out []byte, off int, f string, max int, id string) {
-	i := vpInt(0, max)
-	vpAssert(vpImp(i < len(f), vpAt(out, off+i) == vpAtS(f, i)), id)
-}
-
-// vpSameStr asserts a == b as byte strings with one fresh index.
-func vpSameStr(a, b string, max int, id string) {
-	vpAssert(len(a) == len(b), id+".len")
-	i := vpInt(0, max)
-	vpAssert(vpImp(vpAnd(i < len(a), i < len(b)), vpAtS(a, i) == vpAtS(b, i)), id)
-}
-
-func vpIdx(n int) int {
-	return vpInt(0, n-1)
-}
+// Root-package harness helpers.
 
 // vpArgListN: like vpArgList with concretised lengths (decode-direction harnesses).
 func vpArgListN(maxN, maxLen int) Args {
@@ -83,22 +22,4 @@ func vpArgList(maxN, maxLen int) Args {
 		args = append(args, Arg(vpStr(maxLen)))
 	}
 	return args
-}
-
-func vpInSet(v uint8, set ...uint8) bool {
-	for _, s := range set {
-		if v == s {
-			return true
-		}
-	}
-	return false
-}
-
-// vpSameStrC asserts a == b byte by byte with a concrete loop; for harnesses whose lengths are
-// concretised (every comparison then folds or is a small query).
-func vpSameStrC(a, b string, id string) {
-	vpAssert(len(a) == len(b), id+".len")
-	for i := 0; i < len(a) && i < len(b); i++ {
-		vpAssert(a[i] == b[i], id)
-	}
 }
